@@ -386,7 +386,7 @@ Spurious == \E t \in Threads :
               /\ blk' = [blk EXCEPT ![t] = ""] /\ wk' = wk \cup {t}
               /\ spur' = spur + 1
               /\ act' = [op |-> "spur", arg |-> t]
-              /\ UNCHANGED <<cfg, uf, oq, uRun, cRun, cfOpen, cfBad, ci, cur, ctmp, utmp, objCount, uncSize, pc, tmp4, d, opi, fix, nread, delivered, aret, freed, stale>>
+              /\ UNCHANGED <<cfg, uf, oq, uRun, cRun, cfOpen, cfBad, ci, cur, ctmp, utmp, objCount, uncSize, pc, tmp4, d, opi, fix, ustart, nread, delivered, aret, freed, stale>>
 
 Next == ANext \/ UNext \/ CNext \/ Spurious
 Spec == Init /\ [][Next]_vars
@@ -444,6 +444,14 @@ MaxU == LET RECURSIVE M(_) M(i) == IF i = 0 THEN 0 ELSE LET r == M(i - 1) IN
                                    IF cfg.conts[i].usize > r THEN cfg.conts[i].usize ELSE r IN M(NConts)
 QueueBounded == ~oq.abort => Len(oq.q) <= cfg.Q
 HeldBounded == UFHeld(uf) <= cfg.held
+
+(***************************************************************************)
+(* Refinement: what the application sees is a behaviour of the sequential  *)
+(* contract FileContract.tla (reading part)                                *)
+(***************************************************************************)
+FC == INSTANCE FileContract WITH file <- cfg.expected, out <- delivered, closing <- CloseStarted,
+                                 sizes <- <<>>, acc <- 0, flushed <- 0, closed <- FALSE
+RefinesContract == FC!ReadSpec
 
 (***************************************************************************)
 (* M1 edge log                                                             *)
